@@ -187,6 +187,17 @@ func (c *Counter) Add(n int64) {
 			return
 
 		case !state.havePtr():
+			if state.readers() > 0 {
+				// havePtr was cleared while readers were using c.ptr.
+				// The lock must not be taken over them: the last of those
+				// readers upgrades to a full lock and flushes extra
+				// (see releaseReader).
+				if !c.state.update(&state, state.addExtra(uint64(n))) {
+					continue
+				}
+				debugPrintf("Add %q += %d: noptr, readers draining extra=%d\n", c.name, n, state.extra())
+				return
+			}
 			if !c.state.update(&state, state.addExtra(uint64(n)).setLocked()) {
 				continue
 			}
